@@ -52,6 +52,16 @@ class Coder:
         return '\n'.join(lines)
 
     def guard(self, ch, t):
+        if t.get('tguard') and t['tguard'].get('plain'):
+            tg = t['tguard']
+            parts = []
+            if tg['after'] is not None:
+                parts.append('after(%r)' % tg['after'])
+            if tg['idle'] is not None:
+                parts.append('idle(%r)' % tg['idle'])
+            if t['guard']:
+                parts.append('G(%r, event, time)' % t['id'])
+            return ' and '.join(parts)
         if t.get('tguard'):
             tg = t['tguard']
             a = 'after(%r)' % tg['after'] if tg['after'] is not None else 'None'
